@@ -187,3 +187,53 @@ def live_preamble(s, users, first=4, fund_peg=2000 * 10**8, rounds=3):
 def write(doc, path):
     with open(path, "w") as f:
         json.dump(doc, f)
+
+
+def rich_chain(seed, name="rich", long=True):
+    """A structurally rich live-era chain used by the process-level checks (C01 C02 C09 C10):
+    mining, funding transfers, conversions executed from holding (also across an unrated block),
+    rejected batches, transfer to the burn address, the 2.0.2 burn-address zeroing, mint and
+    mint-burn, PIP-10 activation, two snapshots with staking + developer payouts (long=True)."""
+    rnd = random.Random(seed * 7919 + 11)
+    sched = dict(LIVE)
+    sched.update({"V202": 20, "OneWaySmall": 20, "V204": 24, "V204Burn": 27, "PIP10": 30})
+    s = Scn(name, sched=sched, seed=seed, avg=4)
+    users = [s.key("A%d" % i, "rcde" if i % 3 == 0 else "ed") for i in range(1, 7)]
+    h = live_preamble(s, users, fund_peg=rnd.choice([3000, 5000, 8000]) * 10**8)
+    for u in users:
+        b = s.B(u, "PEG")
+        s.convert(h, u, "PEG", b // rnd.choice([3, 4, 5]), "pUSD")
+    s.convert(h, users[0], "PEG", 10**8, "pXBT")
+    s.grade(h); h += 1
+    h += 1                                  # unrated block: held conversions wait
+    s.grade(h)                              # they execute here
+    s.transfer(h, users[1], "pUSD", [("BURN", 12345), (users[2], 1000)])       # before 2.0.2: BURN is credited
+    s.transfer(h, users[2], "pUSD", [(users[3], s.B(users[2], "pUSD") + 10**12)])  # rejected: insufficient
+    s.entry(h, users[3], [{"t": "pUSD", "amt": 500, "to": [(users[4], 500)]}, {"t": "PEG", "amt": 10**7, "conv": "pXBT"}])
+    h += 1
+    s.grade(h); h += 1
+    s.grade(19)
+    s.grade(20)                             # 2.0.2: BURN zeroed
+    s.transfer(20, users[4], "pUSD", [("BURN", 777)])                          # destroyed from 2.0.2 on
+    s.convert(20, users[5], "pUSD", 1000, "pDCR")                              # one-way small asset: refused (-5)
+    s.grade(21)
+    s.grade(24)                             # mint
+    s.grade(27)                             # burn of the minted remainder
+    for hh in range(28, 34):
+        s.grade(hh)                         # PIP-10 from 30 with a full averaging window
+    s.convert(31, users[0], "pUSD", 5000, "pXBT")
+    s.transfer(32, users[1], "PEG", [(users[0], 10**8)])
+    tip = 34
+    if long:
+        s.grade(143)
+        s.grade(144)                        # first snapshot (nothing to pay yet) + developer payout
+        s.transfer(144, users[2], "pUSD", [(users[3], 100)])
+        s.grade(145)
+        s.grade(287)
+        s.grade(288)                        # second snapshot: staking payout + developer payout
+        s.convert(288, users[1], "pUSD", 300, "pXBT")
+        s.grade(289)
+        tip = 290
+    s.tip(tip)
+    s.s["assets"] = list(ASSETS)
+    return s
